@@ -1,6 +1,12 @@
 """What is claimed in MANIFEST.json (kept next to the rules so they move together)."""
 
 CLAIMS = {
+    'C04': {
+        'text': 'Decides that every opcode the compiler can emit (all emission sites, with computed opcodes enumerated from the operator map and the lexer\'s value domain) has a VM handler; that, per opcode, the operand bytes every emitter writes equal what the handler consumes on every non-jump path; that every handler reading a popped operand\'s value tests it for undefined first and pushes undefined on the undefined path (frozen exception table with reasons); and that the grammar\'s precedence/associativity block equals the table in docs/writingrules.rst. Necessary structural clauses of C04; the arithmetic and loop semantics are not decided.',
+        'design_ref': 'DESIGN.md section 4, C04 (R4.1-R4.5)',
+        'note': 'Trusts clang-14 AST/CFG, tools/yrx.cc, the exemption table UNDEF_EXEMPT in yrsa/rules/C04.py and the read_* bounds-checked-reader idiom. One build configuration.',
+        'technique': 'static exhaustiveness + writer/reader width agreement + undefined-operand typestate over clang AST/CFG facts; doc-vs-grammar table comparison',
+    },
     'C12': {
         'text': 'Decides, for every constant-folding grammar action, that the folder applies the same C operator and the same operand-value guards as the VM handler of the opcode the action emits; that no compiler-layer code reads a run-time object value; that externals are looked up in the scanner-owned table; and that shortcut flags are cleared on every path that uses a string otherwise. These are necessary structural clauses of C12, decided on all sites; verdict equality itself is not decided.',
         'design_ref': 'DESIGN.md section 4, C12 (R12.1-R12.6)',
